@@ -251,9 +251,8 @@ def fixed_cases(tier):
                 X = np.vstack([X] * n)
             X = sig6(X[:n] + np.arange(n)[:, None] * 0.01 * (np.abs(X).max() + 1.0))
             base["X"] = L(X)
-            base.pop("fchunks", None)
-            base.pop("nan_mask", None)
-            base.pop("nan_chunks", None)
+            for key in ("fchunks", "nan_mask", "nan_chunks", "xform"):
+                base.pop(key, None)
             base["K"] = min(base["K"], 4) or 1
             if kind == "kmeans":
                 base["cfg"]["k"] = min(base["cfg"]["k"], 2)
@@ -286,10 +285,13 @@ def fixed_cases(tier):
     # many blocks: counts around powers of two (reductions that work in groups change
     # behaviour exactly there), single-row and uneven layouts
     counts = [15, 17, 31, 33, 63, 65, 100, 127, 129, 257] if tier == "quick" else \
-        [15, 16, 17, 31, 32, 33, 63, 64, 65, 100, 127, 128, 129, 200, 255, 256, 257, 300, 513]
+        [15, 16, 17, 31, 32, 33, 63, 64, 65, 100, 127, 128, 129, 200, 255, 256, 257, 300, 513,
+         1025, 2049]
     for kind in ("kmeans", "gmm_ml", "gmm_map", "gmm_kminit", "whitening", "wccn", "isv"):
         for nb in counts:
             if kind in ("isv",) and nb > 70:
+                continue
+            if kind in ("wccn", "whitening", "gmm_kminit") and nb > 600:
                 continue
             r2 = random.Random(f"fixedmany/{kind}/{nb}")
             base = gen_case(r2, "quick", kind=kind)
@@ -302,9 +304,8 @@ def fixed_cases(tier):
                 nc = len(set(base["y"]))
                 base["y"] = [i % nc for i in range(n)]
             base["chunks"] = random_composition(r2, n, nb)
-            base.pop("fchunks", None)
-            base.pop("nan_mask", None)
-            base.pop("nan_chunks", None)
+            for key in ("fchunks", "nan_mask", "nan_chunks", "xform"):
+                base.pop(key, None)
             base["K"] = min(base.get("K", 1), 2) if kind != "gmm_kminit" else 1
             if kind == "kmeans" and not isinstance(base["cfg"]["init"], list):
                 base["cfg"]["init"] = L(X[: base["cfg"]["k"]] * 1.01)
@@ -312,6 +313,28 @@ def fixed_cases(tier):
             base["sched"] = {"mode": r2.choice(list(MODES)), "policy": "random", "workers": 3,
                              "stall_p": 0.5, "seed": r2.getrandbits(32)}
             out.append(base)
+    if tier == "thorough":
+        # very large row counts in few blocks (per-block code paths that switch on size)
+        for kind in ("kmeans", "gmm_ml", "gmm_kminit", "whitening"):
+            for n in (10000, 20000, 66000):
+                r2 = random.Random(f"fixedrows/{kind}/{n}")
+                base = gen_case(r2, "quick", kind=kind)
+                d = len(base["X"][0])
+                rs = np.random.RandomState(n)
+                X = sig6(np.vstack([A(base["X"])] * (-(-n // len(base["X"]))))[:n]
+                         * (1 + 0.01 * rs.randn(n, d)))
+                base["X"] = L(X)
+                for key in ("fchunks", "nan_mask", "nan_chunks", "xform", "refit"):
+                    base.pop(key, None)
+                base["chunks"] = random_composition(r2, n, r2.randint(2, 3))
+                base["K"] = 1
+                base["thr"] = None
+                if kind == "kmeans" and not isinstance(base["cfg"]["init"], list):
+                    base["cfg"]["init"] = L(X[: base["cfg"]["k"]] * 1.01)
+                base["xmodes"] = False
+                base["sched"] = {"mode": "shared", "policy": "random", "workers": 2,
+                                 "stall_p": 0.5, "seed": r2.getrandbits(32)}
+                out.append(base)
     return out
 
 
@@ -441,10 +464,8 @@ def _fit(case, m, X):
     if case.get("refit"):
         # a long-lived estimator object trained again (nothing from the first call may leak
         # differently in the two paths)
-        if isinstance(X, da.Array):
-            X2 = _dask_X(case, np.asarray(A(case["X"]))[::-1].copy(), reverse=True)
-        else:
-            X2 = np.asarray(X)[::-1].copy()
+        Xr = np.ascontiguousarray(_xform(case, A(case["X"]))[::-1])
+        X2 = _dask_X(case, Xr, reverse=True) if isinstance(X, da.Array) else Xr
         m = _fit_once(case, m, X2, reverse=True)
     return m
 
